@@ -10,6 +10,9 @@ PID = "C07"
 # util.f_measure is also REGENERATED from the source (harness/translate/scalars.py -> lean/MirGen/Scalars.lean); Props/C07_Gen.lean restates
 # the property on the generated definition through C06_Gen.f_measure_eq_model
 TRANSLATOR_PARTS = ["scalars"]
+# the event-metric glue is REGENERATED too (translate/evglue.py); Props/C07_GenGlue.lean states the widening theorems on the
+# translated onset.f_measure / beat.f_measure / segment.detection / tempo.detection (the tie itself is audited by C04)
+TRANSLATOR_PARTS += ["evglue"]
 _here = os.path.dirname(os.path.abspath(__file__))
 _props = os.path.join(os.path.dirname(os.path.dirname(_here)), "lean", "MirProofs", "Props")
 LEAN_MODULES = ["MirProofs.Props.C07"] + sorted(
